@@ -301,6 +301,18 @@ fn gen_wand_query(rng: &mut StdRng) -> Value {
         ix.truncate(n);
         ix.into_iter().map(|i| json!({"k":"term","f":"body","t":format!("b{i}"),"opt":"freq"})).collect()
     };
+    if rng.random_bool(0.12) {
+        // single terms, unions and intersections on the field without fieldnorms (block-max bounds with the constant norm)
+        let nfq = |x: &str| json!({"k":"term","f":"nf","t":x,"opt":"freq"});
+        let mut words = vec!["t0", "t1", "t2", "t3", "all"];
+        words.shuffle(rng);
+        let k = rng.random_range(1..=4);
+        if k == 1 {
+            return nfq(words[0]);
+        }
+        let oc = if rng.random_bool(0.5) { "should" } else { "must" };
+        return qlib::bool_json(words[..k].iter().map(|x| json!({"o":oc,"q":nfq(x)})).collect(), None);
+    }
     let n = rng.random_range(4..=6);
     let w = |x: String| json!({"k":"term","f":"body","t":x,"opt":"freq"});
     match rng.random_range(0..16) {
@@ -317,7 +329,13 @@ fn gen_wand_query(rng: &mut StdRng) -> Value {
                 }
             }
             ws.shuffle(rng);
-            qlib::bool_json(ws.into_iter().map(|x| json!({"o":"should","q":w(x)})).collect(), None)
+            let mut cl: Vec<Value> = ws.into_iter().map(|x| json!({"o":"should","q":w(x)})).collect();
+            if rng.random_bool(0.3) {
+                // one clause on the field without fieldnorms
+                let x = *["t0", "t1", "t2", "all"].choose(rng).unwrap();
+                cl.push(json!({"o":"should","q":{"k":"term","f":"nf","t":x,"opt":"freq"}}));
+            }
+            qlib::bool_json(cl, None)
         }
         0..=4 => qlib::bool_json(distinct(rng, n).into_iter().map(|q| json!({"o":"must","q":q})).collect(), None),
         5..=7 => qlib::bool_json(distinct(rng, n).into_iter().map(|q| json!({"o":"should","q":q})).collect(), None),
@@ -350,7 +368,8 @@ fn gen_scoring_query(rng: &mut StdRng) -> Value {
             qlib::VOCAB[i].to_string()
         }
     };
-    let t = |rng: &mut StdRng| json!({"k":"term","f":"title","t":tok(rng),"opt":"freq"});
+    // `nf` holds the title tokens indexed with frequencies but without fieldnorms (constant norm): used next to the normed field
+    let t = |rng: &mut StdRng| json!({"k":"term","f": if rng.random_bool(0.3) { "nf" } else { "title" },"t":tok(rng),"opt":"freq"});
     match rng.random_range(0..10) {
         0 => t(rng),
         1..=3 => {
